@@ -31,7 +31,6 @@ Definition variants_eqb (a b : variants) : bool :=
 
 Definition validb (c : case) : bool :=
   variants_eqb (cV c) current_variants &&
-  negb (run_empty_case (cC c) (cO c) (cT c)) &&
   forallb res_wf (o_yload (cO c)).
 Definition valid (c : case) : Prop := validb c = true.
 
